@@ -17,6 +17,7 @@ type CEvent struct {
 	Cmd    Cmd
 	NMsgs  int
 	Opaque bool
+	Topic  string // the topic parameter as written (publishes and SUB)
 }
 
 func validNameLocal(s string) bool {
@@ -300,7 +301,7 @@ func Classify(s []byte, L Limits) []CEvent {
 			case len(p) < 3:
 				emit("SUB", nameClass(string(p[1])), "missing", "-")
 			default:
-				emit("SUB", nameClass(string(p[1])), nameClass(string(p[2])), "-")
+				out = append(out, CEvent{Cmd: Cmd{"SUB", nameClass(string(p[1])), nameClass(string(p[2])), "-"}, Topic: string(p[1])})
 			}
 		case "PUB":
 			if len(p) < 2 {
@@ -308,7 +309,7 @@ func Classify(s []byte, L Limits) []CEvent {
 				break
 			}
 			cls, _, rest := sizeClass(s, L.MaxMsgSize)
-			out = append(out, CEvent{Cmd: Cmd{"PUB", nameClass(string(p[1])), cls, "-"}, NMsgs: 1})
+			out = append(out, CEvent{Cmd: Cmd{"PUB", nameClass(string(p[1])), cls, "-"}, NMsgs: 1, Topic: string(p[1])})
 			s = rest
 		case "DPUB":
 			if len(p) < 3 {
@@ -320,7 +321,7 @@ func Classify(s []byte, L Limits) []CEvent {
 				break
 			}
 			cls, _, rest := sizeClass(s, L.MaxMsgSize)
-			out = append(out, CEvent{Cmd: Cmd{"DPUB", nameClass(string(p[1])), numClass(p[2], L.MaxReqTimeoutMs), cls}, NMsgs: 1})
+			out = append(out, CEvent{Cmd: Cmd{"DPUB", nameClass(string(p[1])), numClass(p[2], L.MaxReqTimeoutMs), cls}, NMsgs: 1, Topic: string(p[1])})
 			s = rest
 		case "MPUB":
 			if len(p) < 2 {
@@ -329,7 +330,7 @@ func Classify(s []byte, L Limits) []CEvent {
 			}
 			name := nameClass(string(p[1]))
 			cls, n, rest := mpubClass(s, L)
-			out = append(out, CEvent{Cmd: Cmd{"MPUB", name, cls, "-"}, NMsgs: n})
+			out = append(out, CEvent{Cmd: Cmd{"MPUB", name, cls, "-"}, NMsgs: n, Topic: string(p[1])})
 			s = rest
 		case "AUTH":
 			b := "-"
